@@ -252,7 +252,7 @@ func runC07(c *mon.Ctx) {
 			beforePATCase(c, i, c.Rng("before-pat", i))
 		}
 	}
-	n := c.Pick(400, 15000)
+	n := c.Pick(1600, 15000)
 	for i := int64(0); i < n; i++ {
 		if !c.Mine("models", i) {
 			continue
